@@ -65,25 +65,23 @@ Notation pvalid := (prim_valid subvalid ver).
 
 (* ---------------------------------------------------------------- KeyEventSpec *)
 Definition ke_bytes (e : value) : list Z :=
-  match e with VList [VInt a; VInt b] => be_encode 1 (a mod 256) ++ be_encode 4 b | _ => [] end.
-Definition ke_of (ch : list Z) : value := vpair (VInt (signed 8 (be_decode (ztake 1 ch)))) (VInt (be_decode (zdrop 1 ch))).
+  match e with VList [VInt a; VInt b] => be_encode 1 a ++ be_encode 4 b | _ => [] end.
+Definition ke_of (ch : list Z) : value := vpair (VInt (be_decode (ztake 1 ch))) (VInt (be_decode (zdrop 1 ch))).
 Definition ke_ok (e : value) : bool :=
-  match e with VList [VInt a; VInt b] => in_range (-128) 127 a && in_range 0 4294967295 b | _ => false end.
+  match e with VList [VInt a; VInt b] => in_range 0 255 a && in_range 0 4294967295 b | _ => false end.
 
 Lemma ke_elem e : ke_ok e = true ->
-  rbind (as_int_pair e) (fun '(a, b) => rbind (pack_s 1 a) (fun x => rmap (app x) (pack_u 4 b))) = Ok (ke_bytes e) /\
+  rbind (as_int_pair e) (fun '(a, b) => rbind (pack_u 1 a) (fun x => rmap (app x) (pack_u 4 b))) = Ok (ke_bytes e) /\
   zlen (ke_bytes e) = 5 /\ ke_of (ke_bytes e) = e.
 Proof.
   destruct e as [| | |[|[a| | |] [|[b| | |] [|]]]]; try discriminate. cbn [ke_ok]. intros H.
   apply andb_true_iff in H as [Ha Hb]. apply in_range_spec in Ha, Hb.
-  cbn [as_int_pair rbind ke_bytes]. rewrite pack_s_ok by (change (256 ^ Z.of_nat 1) with 256; change (256 / 2) with 128; lia).
+  cbn [as_int_pair rbind ke_bytes]. rewrite pack_u_ok by (change (256 ^ Z.of_nat 1) with 256; lia).
   cbn [rbind]. rewrite pack_u_ok by (change (256 ^ Z.of_nat 4) with 4294967296; lia). cbn [rmap].
-  change (256 ^ Z.of_nat 1) with 256.
   split; [reflexivity|]. split; [rewrite zlen_app, !zlen_be_encode; reflexivity|].
   unfold ke_of. rewrite (ztake_app_len 1), (zdrop_app_len 1) by (rewrite zlen_be_encode; reflexivity).
-  rewrite (be_decode_encode 1) by (change (256 ^ Z.of_nat 1) with 256; apply Z.mod_pos_bound; lia).
-  rewrite (be_decode_encode 4) by (change (256 ^ Z.of_nat 4) with 4294967296; lia).
-  change 256 with (2 ^ 8). rewrite signed_mod by (try lia; change (2 ^ (8 - 1)) with 128; lia). reflexivity.
+  rewrite (be_decode_encode 1) by (change (256 ^ Z.of_nat 1) with 256; lia).
+  rewrite (be_decode_encode 4) by (change (256 ^ Z.of_nat 4) with 4294967296; lia). reflexivity.
 Qed.
 
 Lemma keyevent_last c v : pvalid c KKeyEvent v = true ->
